@@ -53,7 +53,10 @@ def compare_node(ck, label, dag_a, dag_b, n):
     if sorted(pa) != sorted(pb):
         return f"{n}: parents differ: {sorted(set(pa) ^ set(pb))[:6]}"
     # same parents, different callables: z3 decides equality of the two definitions for all parent values
+    pre = []
     try:
+        if dag_a.kind(n) in ("agg_group", "agg_pid", "grouping", "skipvec", "other"):
+            raise R.Unsupported("whole-column node")
         syms = {p: dag_a.free_symbol(p) for p in pa}
         vals = []
         for d in (dag_a, dag_b):
@@ -61,9 +64,46 @@ def compare_node(ck, label, dag_a, dag_b, n):
             with R.using(ctx):
                 vals.append(R.call_value(d.funcs[n], [], dict(syms)))
         neq = z3.Not(R.values_equal(vals[0], vals[1]))
-    except (R.Unsupported, R.PathEnd) as e:
-        return f"{n}: definitions differ syntactically and cannot be compared symbolically ({e})"
-    r, m = ck.solve([neq], 60)
+    except (R.Unsupported, R.PathEnd):
+        # whole-column definitions: compare on symbolic columns of 2 rows
+        try:
+            from gsv import colsym
+            N = 2
+            cols = {}
+            for p in pa:
+                ty = dag_a.return_type(p) or float
+                cols[p] = colsym.SymArray([R.sym_for(f"{p}[{i}]", ty) for i in range(N)], ty)
+                if p.endswith("_id") or p.startswith("p_id"):
+                    pre += [x.t >= (-1 if p.startswith("p_id_") else 0) for x in cols[p].e]
+            vals = []
+            for d in (dag_a, dag_b):
+                ctx = R.Ctx()
+                with R.using(ctx):
+                    vals.append(R.call_value(d.funcs[n], [], {k: v._copy() for k, v in cols.items()}))
+            neq = z3.Or([z3.Not(R.values_equal(x, y)) for x, y in zip(vals[0].e, vals[1].e)])
+            syms = {f"{p}[{i}]": x for p, c in cols.items() for i, x in enumerate(c.e)}
+        except (R.Unsupported, R.PathEnd, AttributeError) as e:
+            return f"{n}: definitions differ syntactically and cannot be compared symbolically ({e})"
+    r, m = ck.solve(pre + [neq], 60)
     if r == "unsat":
         return None
+    if r == "sat":
+        # replay: both real callables on the model's values
+        import numpy
+        try:
+            kw = {}
+            for p in pa:
+                names = [k for k in syms if k == p or k.startswith(p + "[")]
+                kw[p] = numpy.array([R.model_value(m, syms[k]) for k in names])
+            oa = numpy.asarray(dag_a.funcs[n](**kw), dtype=float)
+            ob = numpy.asarray(dag_b.funcs[n](**kw), dtype=float)
+            if numpy.allclose(oa, ob, rtol=1e-9, atol=1e-12):
+                from gsv import common
+                common.spurious("defeq", f"{n}: model does not distinguish the real callables")
+        except common_errors() as e:
+            return f"{n}: definitions differ and one of them raises on the model ({type(e).__name__})"
     return f"{n}: definitions differ ({r}): {[(p, str(m.eval(s.t, model_completion=True))) for p, s in syms.items()][:6] if m is not None else ''}"
+
+
+def common_errors():
+    return (ValueError, TypeError, KeyError, IndexError, ZeroDivisionError, NotImplementedError)
